@@ -7,6 +7,7 @@ import (
 	"sort"
 	"strconv"
 	"strings"
+	"unicode/utf16"
 )
 
 // KV / OM: an ordered map, so that generated files are deterministic and
@@ -179,7 +180,7 @@ func jsonTo(b *strings.Builder, v interface{}, ind int) {
 // ---------------------------------------------------------------- YAML
 
 // YAML emits block style; flow=true emits nested collections below depth 2 in flow style.
-func YAML(v interface{}) string { return yamlDoc(v, false) }
+func YAML(v interface{}) string     { return yamlDoc(v, false) }
 func YAMLFlow(v interface{}) string { return yamlDoc(v, true) }
 
 func yamlDoc(v interface{}, flow bool) string {
@@ -392,4 +393,25 @@ func tomlTable(b *strings.Builder, t OM, path []string, inline bool) {
 			tomlTable(b, norm(e).(OM), p, inline)
 		}
 	}
+}
+
+// JSONASCII rewrites a JSON text the way writers with "ensure_ascii" / "escape slashes" spell it: every `/` as `\/`,
+// every character outside ASCII as \uXXXX, those beyond the BMP as a UTF-16 surrogate pair. Outside string literals a
+// JSON text has neither, so the text can be rewritten as a whole.
+func JSONASCII(js string) string {
+	var b strings.Builder
+	for _, r := range js {
+		switch {
+		case r == '/':
+			b.WriteString(`\/`)
+		case r < 0x80:
+			b.WriteRune(r)
+		case r >= 0x10000:
+			r1, r2 := utf16.EncodeRune(r)
+			fmt.Fprintf(&b, `\u%04x\u%04x`, r1, r2)
+		default:
+			fmt.Fprintf(&b, `\u%04x`, r)
+		}
+	}
+	return b.String()
 }
